@@ -16,7 +16,7 @@ RULE = (
     "crossed with call in {left,right,none} x stop in {yes,no} per contest, alphas {0.7,0.9}; every (pattern,status) on the first contest x every (pattern,status) on the second (quick: every 4th pattern there), third "
     "contest cycling (thorough: all triples over a reduced pattern set). Oracle = the statement row by row; uncalled, unstopped rows bit-identical to the "
     "run with empty lists. (b) every way of naming a contest for both parties or naming an unknown contest in each of the three lists, state and district "
-    "contests => BootstrapElectionModelException. (c) real client, every (call, stop) assignment of two states (36) with and without finer aggregates. "
+    "contests => BootstrapElectionModelException. (c) real client, every (call, stop) assignment of two states (36) with and without finer aggregates, and of a third contest that exists only through an unexpected unit without votes (0/0 margin). "
     "non-trivial = at least one contest is called or stopped"
 )
 ASSUMPTIONS = ["B = 2 draws are enough to realise any (lower, pred, upper) target because the interval is pred minus two order statistics of the draws"]
@@ -60,6 +60,9 @@ def cases(tier, seed):
         for sa in range(len(STATUS)):
             for sb in range(len(STATUS)):
                 out.append({"kind": "client", "finer": finer, "status": [sa, sb], "seed": seed})
+    # a contest that exists only through an unexpected unit without any votes yet (0/0 margin), called or stopped
+    for sc in range(len(STATUS)):
+        out.append({"kind": "client", "finer": False, "status": [0, 0], "empty_contest": sc, "seed": seed})
     for bad in ("both", "unknown_lhs", "unknown_rhs", "unknown_stop"):
         for office in ("G", "H"):
             out.append({"kind": "client_invalid", "bad": bad, "office": office, "seed": seed})
@@ -199,14 +202,19 @@ def _client(case, cov, viol):
     units.append(E.make_probe(case["seed"], 0, "nonrep_partial", "pop0", weights="twoparty"))
     aggs = ["postal_code", "county_fips", "unit"] if case["finer"] else ["postal_code", "unit"]
     sa, sb = STATUS[case["status"][0]], STATUS[case["status"][1]]
-    lhs = [n for n, s in (("AA", sa), ("BB", sb)) if s[0] == "left"]
-    rhs = [n for n, s in (("AA", sa), ("BB", sb)) if s[0] == "right"]
-    stp = [n for n, s in (("AA", sa), ("BB", sb)) if s[1]]
+    contests = [("AA", sa), ("BB", sb)]
+    if "empty_contest" in case:
+        units.append(E.make_unit("CCc0_z0", "CC", "CCc0", "r", None, (0, 0, 0), (0, 0, 0), 0.0, in_baseline=False, in_feed=True, role="probe"))
+        contests.append(("CC", STATUS[case["empty_contest"]]))
+        cov["empty_contest_runs"] += 1
+    lhs = [n for n, s in contests if s[0] == "left"]
+    rhs = [n for n, s in contests if s[0] == "right"]
+    stp = [n for n, s in contests if s[1]]
     base_cfg = E.make_cfg(pi_method="bootstrap", estimands=["margin"], features=["baseline_normalized_margin"], alphas=[0.7, 0.9], aggregates=aggs, model_parameters={"B": 10, "lambda_": 1.0})
     cfg = dict(base_cfg, lhs=lhs, rhs=rhs, stop=stp)
     a = E.run_estimates(units, base_cfg)
     b = E.run_estimates(units, cfg)
-    ctx = f"client finer={case['finer']} AA={sa} BB={sb}"
+    ctx = f"client finer={case['finer']} " + " ".join(f"{n}={st}" for n, st in contests)
     if "error" in a:
         raise RuntimeError(a)
     if "error" in b:
@@ -214,7 +222,7 @@ def _client(case, cov, viol):
         return 2, True
     ra = {r["postal_code"]: r for r in E.tab_rows(a["ok"]["state_data"])}
     rb = {r["postal_code"]: r for r in E.tab_rows(b["ok"]["state_data"])}
-    for name, (call, stop) in (("AA", sa), ("BB", sb)):
+    for name, (call, stop) in contests:
         for al in (0.7, 0.9):
             ref = (ra[name]["pred_margin"], ra[name][f"lower_{al}_margin"], ra[name][f"upper_{al}_margin"])
             _check_row(name, call, stop, rb[name]["pred_margin"], rb[name][f"lower_{al}_margin"], rb[name][f"upper_{al}_margin"], ref, viol, ctx + f" alpha={al}", cov)
@@ -257,4 +265,4 @@ def evaluate(case):
     return {"violations": V, "cov": dict(cov), "outcome": sha([v["sig"] for v in V] + [case["kind"]]), "nontrivial": nontrivial, "transitions": max(1, runs)}
 
 
-REQUIRED_COUNTERS = {"decision_rows": 10000, "rows_called_left": 1000, "rows_called_right": 1000, "rows_stopped": 1000, "rows_untouched": 1000, "rows_called_and_stopped": 500, "invalid_lists_rejected": 8, "client_runs": 50, "client_invalid_rejected": 6}
+REQUIRED_COUNTERS = {"decision_rows": 10000, "rows_called_left": 1000, "rows_called_right": 1000, "rows_stopped": 1000, "rows_untouched": 1000, "rows_called_and_stopped": 500, "invalid_lists_rejected": 8, "client_runs": 50, "client_invalid_rejected": 6, "empty_contest_runs": 6}
